@@ -7,6 +7,7 @@ package main
 // sentinel that the frozen classification table allows that function to treat as normal end.
 
 import (
+	"os"
 	"fmt"
 	"go/token"
 	"go/types"
@@ -34,14 +35,37 @@ var classification = map[string]map[string]bool{
 	"recordio.MMapReader.ReadNextAt": {"io.EOF": true},
 	"recordio.readNextAtV2":          {"io.EOF": true},
 	"recordio.readNextAtV3":          {"io.EOF": true},
-	// SeekNext performs checksum-verified trial reads; a failed trial means "no record starts here"
-	"recordio.MMapReader.SeekNext": {"io.EOF": true, "recordio.HeaderChecksumMismatchErr": true, "recordio.MagicNumberMismatchErr": true},
+	// SeekNext performs checksum-verified trial reads; a failed trial means "no record starts here"; header parse
+	// failures of a trial read arrive typed (recordHeaderError)
+	"recordio.MMapReader.SeekNext": {"io.EOF": true, "recordio.HeaderChecksumMismatchErr": true, "recordio.MagicNumberMismatchErr": true, "type:recordio.recordHeaderError": true},
 	// a value read that hits end-of-file yields a nil value which then meets the checksum comparison
 	"sstables.SSTableReader.getValueAtOffset": {"io.EOF": true},
 	// index loaders read the index file until end-of-file
 	"sstables.SliceKeyIndexLoader.Load": {"io.EOF": true},
 	// validateDataFile walks the whole index until the iterator is exhausted
 	"sstables.SSTableReader.validateDataFile": {"skiplist.Done": true},
+}
+
+// end / absence signals: errors that callers classify as "nothing more" or "not there"
+var benignSentinels = map[string]bool{
+	"pq.Done": true, "sstables.Done": true, "skiplist.Done": true, "io.EOF": true,
+	"skiplist.NotFound": true, "sstables.NotFound": true, "memstore.KeyNotFound": true, "simpledb.ErrNotFound": true,
+}
+
+// sentinelConversions: reviewed places where one signal is deliberately translated into a benign one
+// (outermost function | from -> to), one line of reason each.
+var sentinelConversions = map[string]string{
+	"memstore.SkipListSStableIterator.Next|skiplist.Done->sstables.Done":     "adapter: the skip list's end-of-iteration becomes the table iterator's",
+	"sstables.SSTableIterator.Next|skiplist.Done->sstables.Done":             "adapter: end of the index iterator is the end of the scan",
+	"sstables.SSTableFullScanIterator.Next|skiplist.Done->sstables.Done":     "adapter: end of the index iterator is the end of the scan (the data reader's io.EOF is NOT: a data file that ends before its index is damage)",
+	"sstables.V0SSTableFullScanIterator.Next|skiplist.Done->sstables.Done":   "adapter: end of the index iterator is the end of the scan",
+	"sstables.SSTableMergeIteratorContext.Next|sstables.Done->pq.Done":       "adapter: an exhausted table leaves the merge heap",
+	"sstables.DiskKeyIndexIterator.Next|io.EOF->skiplist.Done":               "the index file is read to its end: end-of-file of the index is the end of the index",
+	"recordio.FileReader.ReadNext|recordio.MagicNumberMismatchErr->io.EOF":   "block-aligned files end in zero padding: a marker mismatch followed only by zeros is the end of the file (checked byte by byte)",
+	"recordio.readNextV2|recordio.MagicNumberMismatchErr->io.EOF":            "as above, v2 files",
+	"recordio.readNextV3|recordio.MagicNumberMismatchErr->io.EOF":            "as above, v3 files",
+	"simpledb.DB.GetBytes|memstore.KeyTombstoned->simpledb.ErrNotFound":      "a tombstone in the memstore means the key is deleted",
+	"simpledb.DB.GetBytes|memstore.KeyNotFound->simpledb.ErrNotFound":        "absent from the memstore and from the tables",
 }
 
 // error constructors: not failure sources
@@ -313,6 +337,7 @@ type efState struct {
 	pred     *ssa.BasicBlock
 	mode     int // 0 unchecked, 1 must-handle (known non-nil)
 	carriers map[ssa.Value]bool
+	via      string // how the path learnt that the error is non-nil: "" (nil test), a sentinel name, "type:T", "pred"
 }
 
 func carrierKey(m map[ssa.Value]bool) string {
@@ -393,7 +418,7 @@ func (ef *errflow) explore(fn *ssa.Function, origin Site, evals []ssa.Value) (Ve
 		if undec != "" || len(bad) > 3 {
 			return
 		}
-		k := fmt.Sprintf("%d|%d|%d|%s", st.b.Index, st.idx, st.mode, carrierKey(st.carriers))
+		k := fmt.Sprintf("%d|%d|%d|%s|%s", st.b.Index, st.idx, st.mode, carrierKey(st.carriers), st.via)
 		if st.idx == 0 && st.pred != nil {
 			k += fmt.Sprintf("|p%d", st.pred.Index)
 		}
@@ -565,6 +590,21 @@ func (ef *errflow) explore(fn *ssa.Function, origin Site, evals []ssa.Value) (Ve
 					if ef.strictWrap {
 						bad = append(bad, fmt.Sprintf("identity lost: on the failure path a different error (not wrapping this one with %%w) is returned at %s", ef.p.Pos(x.Pos())))
 					}
+					// the failure is replaced by another error: fine unless that error is an end/absence signal that
+					// callers classify as benign — then the failure is absorbed one level up
+					if to := returnedSentinel(b); to != "" && benignSentinels[to] && to != st.via {
+						ck := FuncKey(outermost(fn)) + "|" + st.via + "->" + to
+						if os.Getenv("VERIF_CONVERSIONS") != "" {
+							fmt.Fprintf(os.Stderr, "CONVERSION %s\n", ck)
+						}
+						if _, listed := sentinelConversions[ck]; !listed {
+							from := st.via
+							if from == "" {
+								from = "any failure"
+							}
+							bad = append(bad, fmt.Sprintf("converted: %s of this call is turned into %s at %s, which callers take for a regular end/absence signal (the failure is absorbed one level up)", from, to, ef.p.Pos(x.Pos())))
+						}
+					}
 					return // reports a (different) error
 				}
 				if kind == "unknown" {
@@ -573,46 +613,60 @@ func (ef *errflow) explore(fn *ssa.Function, origin Site, evals []ssa.Value) (Ve
 				bad = append(bad, fmt.Sprintf("overwritten: the error is never examined and a different error value is returned at %s", ef.p.Pos(x.Pos())))
 				return
 			case *ssa.If:
-				if v, nilS, nonNilS, ok := nilTest(b); ok && has(v) {
-					_ = nilS
-					run(efState{nonNilS, 0, b, 1, car})
+				if v, nilS, nonNilS, nilE, nonNilE, ok := nilTest2(b); ok && has(v) {
+					// exact sides: non-nil continues as a failure path, nil is dropped; a side shared with another
+					// condition (stored `a && err != nil`) keeps the current mode
+					if nonNilE {
+						run(efState{nonNilS, 0, b, 1, car, viaNil(st)})
+					} else {
+						run(efState{nonNilS, 0, b, st.mode, car, st.via})
+					}
+					if !nilE {
+						run(efState{nilS, 0, b, st.mode, car, st.via})
+					}
 					return
 				}
 				if v, sent, isS, notS, ok := sentinelTest(b); ok && has(v) {
 					if !ef.allowed(fn, sent) {
-						run(efState{isS, 0, b, 1, car})
+						run(efState{isS, 0, b, 1, car, sent})
 					}
-					run(efState{notS, 0, b, st.mode, car})
+					run(efState{notS, 0, b, st.mode, car, st.via})
 					return
 				}
-				if pc, ok := x.Cond.(*ssa.Call); ok && len(pc.Call.Args) == 1 && has(pc.Call.Args[0]) {
-					if sc := pc.Call.StaticCallee(); sc != nil {
-						if sents, ok := sentinelPredicate(sc); ok {
-							all := len(sents) > 0
-							for g := range sents {
-								if !ef.allowed(fn, g) {
-									all = false
-								}
+				if tn, aT, aF, ok := errorsAsTest(b, has); ok {
+					// errors.As(err, &target): a classification by error type
+					if !ef.allowed(fn, "type:"+tn) {
+						run(efState{aT, 0, b, 1, car, "type:" + tn})
+					}
+					run(efState{aF, 0, b, st.mode, car, st.via})
+					return
+				}
+				if pc, pT, pF, ok := predicateTest(b); ok && has(pc.Call.Args[0]) {
+					if sents, ok := sentinelPredicate(pc.Call.StaticCallee()); ok {
+						all := len(sents) > 0
+						for g := range sents {
+							if !ef.allowed(fn, g) {
+								all = false
 							}
-							if !all {
-								run(efState{b.Succs[0], 0, b, 1, car})
-							}
-							run(efState{b.Succs[1], 0, b, st.mode, car})
-							return
 						}
+						if !all {
+							run(efState{pT, 0, b, 1, car, "pred"})
+						}
+						run(efState{pF, 0, b, st.mode, car, st.via})
+						return
 					}
 				}
 				for _, s := range b.Succs {
-					run(efState{s, 0, b, st.mode, car})
+					run(efState{s, 0, b, st.mode, car, st.via})
 				}
 				return
 			case *ssa.Jump:
-				run(efState{b.Succs[0], 0, b, st.mode, car})
+				run(efState{b.Succs[0], 0, b, st.mode, car, st.via})
 				return
 			}
 		}
 	}
-	run(efState{origin.Block, origin.Idx + 1, nil, 0, init})
+	run(efState{origin.Block, origin.Idx + 1, nil, 0, init, ""})
 	if undec != "" {
 		return Undecided, undec
 	}
@@ -766,4 +820,32 @@ func wrapsWithW(c *ssa.Call, has func(ssa.Value) bool) bool {
 		}
 	}
 	return false
+}
+
+// errorsAsTest recognises `If errors.As(x, &target)` (behind effCond) for a carried x; returns the short name of the
+// target's element type and the successors.
+func errorsAsTest(b *ssa.BasicBlock, has func(ssa.Value) bool) (typeName string, trueSucc, falseSucc *ssa.BasicBlock, ok bool) {
+	cnd, tS, fS, tE, _, is := effCond(b)
+	if !is || !tE {
+		return
+	}
+	c, isC := cnd.(*ssa.Call)
+	if !isC || CalleeKey(c) != "errors.As" || len(c.Call.Args) != 2 || !has(c.Call.Args[0]) {
+		return
+	}
+	t := stripIface(c.Call.Args[1]).Type()
+	for i := 0; i < 2; i++ {
+		if pt, isP := t.(*types.Pointer); isP {
+			t = pt.Elem()
+		}
+	}
+	return typeShort(t), tS, fS, true
+}
+
+// viaNil: a nil test after a sentinel test keeps the more specific knowledge.
+func viaNil(st efState) string {
+	if st.mode == 1 {
+		return st.via
+	}
+	return ""
 }
